@@ -416,7 +416,34 @@ func c19Style(c *C19Case) Verdict {
 			labels["fallback"] = true
 		}
 	}
+	// an extends cycle through three generated styles (s0 -> .. -> s0): the listed finding C19-F02 is about them
+	cycle3 := false
+	if len(c.Styles) >= 3 {
+		for _, s := range c.Styles {
+			cur, steps := s, 0
+			for cur.System == "extends" && steps < 4 {
+				next, ok := ref[cur.Extends]
+				if !ok || next == nil {
+					break
+				}
+				cur = next
+				steps++
+				if cur.Name == s.Name {
+					break
+				}
+			}
+			if cur.Name == s.Name && steps == 3 {
+				cycle3 = true
+			}
+		}
+	}
+	if cycle3 {
+		labels["extends-cycle-of-three"] = true
+	}
 	mk := func(v Verdict) Verdict {
+		if cycle3 && v.Sig != "" {
+			v.Sig += ":extends-cycle-of-three"
+		}
 		for l := range labels {
 			v.Labels = append(v.Labels, l)
 		}
